@@ -76,6 +76,12 @@ CHECKS = {
    note="Trusts the executable model of DESIGN A.10; references always carry the live node's file version (stale-version references are an explicit ambiguity zone).",
    ref="DESIGN.md §5 C17"),
 }
+ 
+CHECKS["C20"] = dict(
+   technique="configuration-corruption monitor: every catalogued single-field corruption of a valid config (paired with a syntactically broken globbed source file to expose check-after-analysis) plus a sweep of valid configs whose artifacts are stat'ed, parsed and compared with the configuration (child runs under umask 0, decoy controllers outside the globs)",
+   text="Runtime monitoring of the real CLI: 42 corruption rows x 2 (thorough 12) rounds must be rejected up front (exit!=0, message names the Go or JSON field, message not about source analysis, snapshot shows nothing written); 40 (thorough 400) valid configurations over 5 engines x 2 versions x 8 permission strings x package names x output paths x 3 glob/decoy layouts, a third written as JSON5, must be honoured literally (path, mode, package clause, engine and authorization imports, openapi version, info/servers/securitySchemes copy, no controller from an unglobbed file in spec or routes, no extra files). Exploration of the catalogue x generated projects.",
+   note="Catalogue transcribed from the validate tags (DESIGN Appendix I); JSON-typing errors are judged on up-front rejection only (the decoder's message carries no field name); controllerGlobs:[] and a missing commonConfig are observed, not judged.",
+   ref="DESIGN.md §5 C20, Appendix I")
 
 NOT_YET = {
 }
